@@ -52,7 +52,7 @@ PROPS = {
     "C15": dict(claim="bytes_contains_any on well-formed symbolic byte streams (Push immediates fully symbolic, so immediates containing opcode bytes are inside) for all 64 effect sets equals 'some parsed op has one of the effects'; analyze(ops) equals the union of per-op flags on <=3 ops drawn from all effectful ops, Push and an effect-free op.",
                 outside=["streams above the bound"]),
     "C17": dict(claim="What is hashed (SHA-256 uninterpreted): from_predicate_addrs_slice / from_solution_addrs_slice hash exactly the given addresses in ascending order (a permutation of the input - so the address does not depend on predicate / solution order) followed by the salt; Address for Predicate hashes encode_predicate(p), whose layout is the documented one, is inverted by decode_predicate (injective) and whose reported size equals its length; Address for Program hashes the program bytes; Address for Contract = from_contract = predicate addresses ‖ salt.",
-                outside=["Address for Solution (postcard serialisation is third-party and not modelled) and therefore from_set's plumbing", "injectivity of the fixed-width concatenation is by construction (32-byte chunks), not a separate query", "SHA-256 itself"]),
+                outside=["Address for Solution / SolutionSet runs through postcard, which the solver does not see: it is only exercised by a native differential on 51 structurally different solutions (distinct pre-hash bytes and addresses, set address independent of solution order) attached to h_hash::address_plumbing", "injectivity of the fixed-width concatenation is by construction (32-byte chunks), not a separate query", "SHA-256 itself"]),
     "C18": dict(claim="Wire codecs: decode_mutations(encode_mutations(ms)) = ms with the documented layout and sizes (<=2 mutations, key/value <=2 words), decode_predicate(encode_predicate(p)) = p (<=2 nodes, <=3 edges, any edge_start incl. the leaf marker), decode_mutation equals the documented layout on every word string <=6, and node_edges returns exactly the documented sub-range. Fixed-width conversions (every word / byte symbolic): bytes_from_word / word_from_bytes, word_4_from_u8_32 / u8_32_from_word_4, word_8_from_u8_64 / u8_64_from_word_8 are big-endian and mutually inverse in both directions, word_from_bytes_slice zero-pads / truncates slices of 0..10 bytes, bool_from_word accepts exactly 0 and 1, Signature <-> [u8; 65] and ContentAddress <-> [Word; 4] / [u8; 32] are the identity on their bytes.",
                 outside=["hex strings, Display/FromStr and the serde round trips (JSON / postcard, is_human_readable branches): they run through the hex / serde / serde_json / postcard crates, whose generic Serializer machinery is not modelled", "sizes above the stated bounds"]),
     "C19": dict(claim="The Rust plumbing around the secp256k1 / ed25519 primitives, with the primitives as uninterpreted functions: sign::contract::sign then recover returns the signer's key and verify accepts, for every contract with <=2 predicates (one node, one edge, symbolic fields) and every salt, also when the verifier is given the predicates in the other order, because both sides hash the same content address (ascending predicate addresses, salt); recover / verify / RecoverSecp256k1 return an error (never panic) for every 64-byte signature and every recovery-id byte incl. ids >3; the VM op feeds the library exactly the popped 4+8+1 words in order and pushes encode::public_key's 5-word layout; encode::signature/public_key have the documented word layout. Each run also executes a native differential (real keys, real library) of contract sign/recover/verify and of the three VM crypto ops against the sign/hash crates.",
